@@ -986,15 +986,26 @@ func boundSites(fn *ssa.Function) []*boundSite {
 
 // boundsProver carries the interprocedural facts.
 type boundsProver struct {
-	c       *Ctx
-	e       *aliasEngine
-	post    map[*ssa.Function]map[int]int // function -> result index of an offset -> index of the buffer parameter; success implies ret <= len(param)
-	callers map[*ssa.Function][]ssa.CallInstruction
-	inPre   map[*ssa.Function]bool
-	predK   map[*ssa.Function]int64
-	boolP   map[*ssa.Function]int // 0 unknown, 1 proven, 2 not proven / in progress
+	c    *Ctx
+	e    *aliasEngine
+	post map[*ssa.Function]map[int]int // function -> result index of an offset -> index of the buffer parameter; success implies ret <= len(param)
+	// cpost: the same, but only for calls whose int arguments listed in pre are themselves <= len(buffer argument)
+	// (a helper that hands its offset parameter back when it has nothing to do)
+	cpost    map[*ssa.Function]map[int]condPost
+	hyp      map[*ssa.Function][]int // while a conditional postcondition is being shown: parameters assumed <= len(buffer)
+	hypBuf   map[*ssa.Function]int
+	condBusy map[*ssa.Call]bool
+	callers  map[*ssa.Function][]ssa.CallInstruction
+	inPre    map[*ssa.Function]bool
+	predK    map[*ssa.Function]int64
+	boolP    map[*ssa.Function]int // 0 unknown, 1 proven, 2 not proven / in progress
 	// goalValues: the values of the goal currently being proven (for facts about calls that occur only in the goal)
 	goalValues []ssa.Value
+}
+
+type condPost struct {
+	buf int
+	pre []int
 }
 
 func newBoundsProver(c *Ctx, e *aliasEngine, scope map[*ssa.Function]bool) *boundsProver {
@@ -1003,7 +1014,7 @@ func newBoundsProver(c *Ctx, e *aliasEngine, scope map[*ssa.Function]bool) *boun
 	}
 	fieldInv = map[*types.Var]int{}
 	paramNN = map[*ssa.Parameter]int{}
-	bp := &boundsProver{c: c, e: e, post: map[*ssa.Function]map[int]int{}, callers: map[*ssa.Function][]ssa.CallInstruction{}, inPre: map[*ssa.Function]bool{}}
+	bp := &boundsProver{c: c, e: e, post: map[*ssa.Function]map[int]int{}, cpost: map[*ssa.Function]map[int]condPost{}, hyp: map[*ssa.Function][]int{}, hypBuf: map[*ssa.Function]int{}, condBusy: map[*ssa.Call]bool{}, callers: map[*ssa.Function][]ssa.CallInstruction{}, inPre: map[*ssa.Function]bool{}}
 	fieldInvProver = bp
 	for _, f := range e.fns {
 		allInstrs(f, func(in ssa.Instruction) {
@@ -1086,6 +1097,49 @@ func (bp *boundsProver) computePost(f *ssa.Function) bool {
 				bp.post[f] = map[int]int{}
 			}
 			bp.post[f][k] = bi
+			if bp.cpost[f] != nil {
+				delete(bp.cpost[f], k)
+			}
+			changed = true
+			continue
+		}
+		if _, done := bp.cpost[f][k]; done || n == 0 {
+			continue
+		}
+		// conditionally: with the int parameters assumed to be no larger than the buffer
+		var pre []int
+		for j, p := range f.Params {
+			if b, isB := p.Type().Underlying().(*types.Basic); isB && b.Kind() == types.Int {
+				pre = append(pre, j)
+			}
+		}
+		if len(pre) == 0 {
+			continue
+		}
+		bp.hyp[f], bp.hypBuf[f] = pre, bi
+		ok = true
+		if os.Getenv("BPDEBUG") != "" {
+			fmt.Fprintf(os.Stderr, "try-cpost %s #%d pre=%v\n", fnDisplay(f), k, pre)
+		}
+		for _, rp := range returnPoints(f, errIdx) {
+			if isErrorValue(f, rp.Block, rp.Results[errIdx], rp.EdgeFacts...) {
+				continue
+			}
+			if !bp.boundedByLen(f, rp.Block, rp.EdgeFacts, rp.Results[k], f.Params[bi], map[*ssa.Phi]bool{}, 0) {
+				ok = false
+				break
+			}
+		}
+		delete(bp.hyp, f)
+		delete(bp.hypBuf, f)
+		if ok {
+			if bp.cpost[f] == nil {
+				bp.cpost[f] = map[int]condPost{}
+			}
+			bp.cpost[f][k] = condPost{buf: bi, pre: pre}
+			if os.Getenv("BPDEBUG") != "" {
+				fmt.Fprintf(os.Stderr, "cpost %s #%d pre=%v\n", fnDisplay(f), k, pre)
+			}
 			changed = true
 		}
 	}
@@ -1153,10 +1207,22 @@ func (bp *boundsProver) factsAtPoint(f *ssa.Function, blk *ssa.BasicBlock, extra
 			out = append(out, linFact{lf: lf, why: "precondition of the entry point"})
 		}
 	}
+	if pre, has := bp.hyp[f]; has {
+		for _, j := range pre {
+			out = append(out, linFact{lf: env.lin(f.Params[j]).add(env.lenOf(f.Params[bp.hypBuf[f]]), -1), why: "hypothesis of the conditional postcondition"})
+		}
+	}
 	facts := append(factsAt(f, blk), extra...)
 	for _, ft := range facts {
 		out = append(out, env.factsFrom(ft)...)
 	}
+	type condCand struct {
+		call *ssa.Call
+		k    int
+		cp   condPost
+		done bool
+	}
+	var cands []*condCand
 	// postconditions: for a call t = H(..., buf, ...) with err result compared == nil on this path
 	for _, ft := range facts {
 		b, ok := ft.Atom.(*ssa.BinOp)
@@ -1195,6 +1261,58 @@ func (bp *boundsProver) factsAtPoint(f *ssa.Function, blk *ssa.BasicBlock, extra
 					}
 					bi = pb
 				}
+				if !all {
+					// every callee has the postcondition, some of them only conditionally: the union of the preconditions
+					okAll := true
+					cbuf := -1
+					preSet := map[int]bool{}
+					var missing []string
+					for _, g := range callees {
+						if pb, has := bp.post[g][k]; has {
+							if cbuf >= 0 && cbuf != pb {
+								okAll = false
+							}
+							cbuf = pb
+							continue
+						}
+						cp, has := bp.cpost[g][k]
+						if !has || (cbuf >= 0 && cbuf != cp.buf) {
+							okAll = false
+							missing = append(missing, fnDisplay(g))
+							continue
+						}
+						cbuf = cp.buf
+						for _, j := range cp.pre {
+							preSet[j] = true
+						}
+					}
+					if os.Getenv("BPDEBUG") != "" && len(missing) > 0 && len(callees) > 1 {
+						fmt.Fprintf(os.Stderr, "no-post %s #%d: %v\n", calleeNameSSA(&call.Call), k, missing)
+					}
+					if okAll && cbuf >= 0 {
+						cp := condPost{buf: cbuf}
+						for j := range preSet {
+							cp.pre = append(cp.pre, j)
+						}
+						sort.Ints(cp.pre)
+						if call.Call.IsInvoke() {
+							// the receiver is not among the arguments
+							cp.buf--
+							for i := range cp.pre {
+								cp.pre[i]--
+							}
+						}
+						valid := cp.buf >= 0
+						for _, j := range cp.pre {
+							if j < 0 {
+								valid = false
+							}
+						}
+						if valid {
+							cands = append(cands, &condCand{call: call, k: k, cp: cp})
+						}
+					}
+				}
 				if !all || bi < 0 {
 					continue
 				}
@@ -1218,6 +1336,57 @@ func (bp *boundsProver) factsAtPoint(f *ssa.Function, blk *ssa.BasicBlock, extra
 				lf := env.lin(exk).add(env.lenOf(args[bi]), -1)
 				out = append(out, linFact{lf: lf, why: "postcondition of " + calleeNameSSA(&call.Call)})
 			}
+		}
+	}
+	// conditional postconditions: usable where the arguments named in the precondition are known to fit the buffer
+	for round := 0; round < 4 && len(cands) > 0; round++ {
+		progress := false
+		for _, cd := range cands {
+			if cd.done {
+				continue
+			}
+			args := cd.call.Call.Args
+			if cd.cp.buf >= len(args) {
+				continue
+			}
+			okPre := true
+			for _, j := range cd.cp.pre {
+				if j >= len(args) {
+					okPre = false
+					break
+				}
+				if env.entailsLin(out, env.lin(args[j]).add(env.lenOf(args[cd.cp.buf]), -1)) {
+					continue
+				}
+				// at the call itself, inductively over the phis the argument is made of
+				if os.Getenv("BPDEBUG") != "" {
+					fmt.Fprintf(os.Stderr, "cand %s arg %d busy=%v\n", calleeNameSSA(&cd.call.Call), j, bp.condBusy[cd.call])
+				}
+				if bp.condBusy[cd.call] {
+					okPre = false
+					break
+				}
+				bp.condBusy[cd.call] = true
+				proven := bp.boundedByLen(f, cd.call.Block(), nil, args[j], args[cd.cp.buf], map[*ssa.Phi]bool{}, 0)
+				delete(bp.condBusy, cd.call)
+				if !proven {
+					okPre = false
+					break
+				}
+			}
+			if !okPre {
+				continue
+			}
+			for _, ref := range *cd.call.Referrers() {
+				if e2, ok := ref.(*ssa.Extract); ok && e2.Index == cd.k {
+					out = append(out, linFact{lf: env.lin(e2).add(env.lenOf(args[cd.cp.buf]), -1), why: "conditional postcondition of " + calleeNameSSA(&cd.call.Call)})
+				}
+			}
+			cd.done = true
+			progress = true
+		}
+		if !progress {
+			break
 		}
 	}
 	// standard-library results (unconditional): an index into s is in [-1, len(s)-1]; Cut's parts are no longer than s
@@ -1254,6 +1423,20 @@ func (bp *boundsProver) factsAtPoint(f *ssa.Function, blk *ssa.BasicBlock, extra
 				hi := r.add(env.lenOfAny(t.Call.Args[0]), -1)
 				hi.c++ // r + 1 - len(s) <= 0
 				out = append(out, linFact{lf: lo, why: "index >= -1"}, linFact{lf: hi, why: "index < len"})
+			case "builtin.min", "builtin.max":
+				// min(a, b, ...) is no larger than any argument, max(...) no smaller
+				if b, isB := t.Type().Underlying().(*types.Basic); isB && b.Info()&types.IsInteger != 0 {
+					for _, a := range t.Call.Args {
+						addCallFacts(a, depth+1)
+						var lf *linExpr
+						if calleeNameSSA(&t.Call) == "builtin.min" {
+							lf = env.lin(t).add(env.lin(a), -1)
+						} else {
+							lf = env.lin(a).add(env.lin(t), -1)
+						}
+						out = append(out, linFact{lf: lf, why: "min / max of its arguments"})
+					}
+				}
 			case "fmt.Sprintf":
 				// the format's fixed widths give a minimum length
 				if k, ok := t.Call.Args[0].(*ssa.Const); ok && k.Value != nil && k.Value.Kind() == constant.String {
@@ -1607,13 +1790,16 @@ func (bp *boundsProver) prove(s *boundSite) {
 }
 
 func (bp *boundsProver) proveAtPreds(f *ssa.Function, s *boundSite, blk *ssa.BasicBlock, depth int, seen map[*ssa.BasicBlock]bool) bool {
-	return bp.proveAtPredsSubst(f, s, blk, depth, seen, nil)
+	return bp.proveAtPredsSubst(f, s, blk, depth, seen, nil, nil)
 }
 
 // proveAtPredsSubst: the goal on every incoming path of blk. A value of the goal that is a phi of blk (or was
 // replaced by one further down) is read as the value it receives on the edge taken; cur maps the goal's own values to
 // what they stand for at the current block.
-func (bp *boundsProver) proveAtPredsSubst(f *ssa.Function, s *boundSite, blk *ssa.BasicBlock, depth int, seen map[*ssa.BasicBlock]bool, cur map[ssa.Value]ssa.Value) bool {
+// carry: branch outcomes of the edges already walked back over (from blk down to the access); they speak of SSA
+// values, which do not change along one path, so they hold on the whole path and make some of the incoming paths
+// infeasible (an atom known both true and false).
+func (bp *boundsProver) proveAtPredsSubst(f *ssa.Function, s *boundSite, blk *ssa.BasicBlock, depth int, seen map[*ssa.BasicBlock]bool, cur map[ssa.Value]ssa.Value, carry []Fact) bool {
 	if depth > 5 || len(blk.Preds) == 0 || seen[blk] {
 		return false
 	}
@@ -1628,8 +1814,16 @@ func (bp *boundsProver) proveAtPredsSubst(f *ssa.Function, s *boundSite, blk *ss
 	for pi, p := range blk.Preds {
 		env := newLinEnv()
 		var extra []Fact
+		carryNext := carry
 		if ef, ok := edgeFact(p, blk); ok {
 			extra = append(extra, ef)
+			if phiFree(ef.Atom) && sameInstance(ef.Atom, p, seen) {
+				carryNext = append(append([]Fact{}, carry...), ef)
+			}
+		}
+		extra = append(extra, carry...)
+		if contradictory(append(factsAt(f, p), extra...)) {
+			continue // no execution comes this way and goes on to the access
 		}
 		next := map[ssa.Value]ssa.Value{}
 		for k, v := range cur {
@@ -1673,7 +1867,7 @@ func (bp *boundsProver) proveAtPredsSubst(f *ssa.Function, s *boundSite, blk *ss
 		if env.entailsLin(facts, goal) {
 			continue
 		}
-		if !bp.proveAtPredsSubst(f, s, p, depth+1, seen, next) {
+		if !bp.proveAtPredsSubst(f, s, p, depth+1, seen, next, carryNext) {
 			return false
 		}
 	}
@@ -2524,6 +2718,9 @@ func (bp *boundsProver) proveByCallersSubst(s *boundSite) bool {
 		cb := ci.(ssa.Instruction).Block()
 		var holdsAt func(blk *ssa.BasicBlock, extra []Fact, depth int, onPath map[*ssa.BasicBlock]bool) bool
 		holdsAt = func(blk *ssa.BasicBlock, extra []Fact, depth int, onPath map[*ssa.BasicBlock]bool) bool {
+			if contradictory(append(factsAt(g, blk), extra...)) {
+				return true // a branch outcome is needed both ways: no execution takes this path to the call
+			}
 			bp.goalValues = append([]ssa.Value{}, cc.Args...)
 			pf := bp.factsAtPoint(g, blk, extra, env)
 			bp.goalValues = saved
@@ -2553,7 +2750,7 @@ func (bp *boundsProver) proveByCallersSubst(s *boundSite) bool {
 			}
 			for _, pred := range blk.Preds {
 				ex := append([]Fact{}, extra...)
-				if ef, ok := edgeFact(pred, blk); ok {
+				if ef, ok := edgeFact(pred, blk); ok && sameInstance(ef.Atom, pred, onPath) {
 					ex = append(ex, ef)
 				}
 				if !holdsAt(pred, ex, d, onPath) {
@@ -2573,6 +2770,40 @@ func (bp *boundsProver) proveByCallersSubst(s *boundSite) bool {
 			fmt.Fprintf(os.Stderr, "callers-subst %s %s at %s: need %s; facts %s\n", f.Name(), s.Kind, g.Name(), goal.String(), strings.Join(fs, " ; "))
 		}
 		return false
+	}
+	return true
+}
+
+// phiFree: the value does not depend on a phi (so it means the same thing at every point of a path).
+func phiFree(v ssa.Value) bool {
+	for o := range sliceOf(v) {
+		if _, isPhi := o.(*ssa.Phi); isPhi {
+			return false
+		}
+	}
+	return true
+}
+
+// contradictory: some atom is recorded with both outcomes.
+func contradictory(fs []Fact) bool {
+	seen := map[ssa.Value]bool{}
+	for _, f := range fs {
+		if h, ok := seen[f.Atom]; ok && h != f.Holds {
+			return true
+		}
+		seen[f.Atom] = f.Holds
+	}
+	return false
+}
+
+// sameInstance: the atom tested at the end of block pred is computed from values none of which is defined in a
+// block of the path walked back so far (other than pred itself): going round a loop, such a value would be the one of
+// an earlier iteration, and a branch outcome about it says nothing about the value the later edges tested.
+func sameInstance(atom ssa.Value, pred *ssa.BasicBlock, onPath map[*ssa.BasicBlock]bool) bool {
+	for o := range sliceOf(atom) {
+		if in, ok := o.(ssa.Instruction); ok && in.Block() != nil && in.Block() != pred && onPath[in.Block()] {
+			return false
+		}
 	}
 	return true
 }
